@@ -1,6 +1,7 @@
 package props
 
 import (
+	"fmt"
 	"go/ast"
 	"go/token"
 	"go/types"
@@ -604,80 +605,175 @@ func runC17(c *core.Ctx) {
 			o.Require(ks["Kids"] && ks["leafKey"], "the %s reader does not read Kids and the leaf array", which)
 		}
 		o.Require(readKeys["streaming"]["Limits"], "the streaming reader does not use /Limits to descend")
-		// guards
-		for _, name := range []string{"lookupInNode", "yieldFromNode", "extractFromNode"} {
-			var fn *core.Func
-			for _, f := range c.Prog.Funcs(pkg) {
-				if strings.HasSuffix(f.Key, "."+name) {
-					fn = f
+		// guards: every recursive descent of a reader (a function of the two
+		// reader files that can reach itself through calls inside the package)
+		// tests kid references against a visited-set with an exit, extends the
+		// set, and bounds the depth -- in the recursive functions themselves or
+		// in unexported helpers they call
+		var readers []*core.Func
+		for _, fn := range c.Prog.Funcs(pkg) {
+			file := c.Prog.Fset.Position(fn.Decl.Pos()).Filename
+			if fn.Decl.Body != nil && (strings.HasSuffix(file, "streaming.go") || strings.HasSuffix(file, "memory.go")) {
+				readers = append(readers, fn)
+			}
+		}
+		callees := func(fn *core.Func) []*core.Func {
+			var out []*core.Func
+			for _, cs := range core.CallsIn(fn.Info(), fn.Decl.Body, true) {
+				if cs.Fn == nil || cs.Fn.Pkg() == nil || cs.Fn.Pkg() != fn.Obj.Pkg() {
+					continue
+				}
+				if h := c.Prog.FuncOf(cs.Fn); h != nil && h.Decl.Body != nil {
+					out = append(out, h)
 				}
 			}
-			if fn == nil {
-				core.Undecided("reader function %s not found", name)
-			}
-			o.At(fn.Site(fn.Decl, name))
-			src := c.Prog.Src(fn.Decl.Body)
-			// a visited-set keyed by Reference that is tested with an exit and
-			// extended, in the function itself or in an unexported helper that is
-			// handed the set (firstVisit(seen, ref))
-			visited := false
-			ast.Inspect(fn.Decl.Body, func(m ast.Node) bool {
-				is, ok := m.(*ast.IfStmt)
-				if !ok || !exits(is.Body) {
-					return true
+			return out
+		}
+		reach := func(from *core.Func) map[*core.Func]bool {
+			seen := map[*core.Func]bool{}
+			var walk func(f *core.Func)
+			walk = func(f *core.Func) {
+				for _, h := range callees(f) {
+					if !seen[h] {
+						seen[h] = true
+						walk(h)
+					}
 				}
-				ast.Inspect(is.Cond, func(k ast.Node) bool {
-					if ix, ok := k.(*ast.IndexExpr); ok {
-						if mt, ok := fn.Info().TypeOf(ix.X).Underlying().(*types.Map); ok && strings.Contains(core.TypeString(mt.Key()), "Reference") {
-							visited = true
+			}
+			walk(from)
+			return seen
+		}
+		isRefMap := func(info *types.Info, e ast.Expr) bool {
+			t := info.TypeOf(e)
+			if t == nil {
+				return false
+			}
+			mt, ok := t.Underlying().(*types.Map)
+			return ok && core.IsNamed(mt.Key(), "pdf", "Reference")
+		}
+		assigned := map[*core.Func]bool{}
+		nrec := 0
+		for _, fn := range readers {
+			r := reach(fn)
+			if !r[fn] || assigned[fn] {
+				continue
+			}
+			// the cycle fn lies on, and the helpers its members call directly
+			region := map[*core.Func]bool{}
+			for h := range r {
+				if reach(h)[fn] {
+					region[h] = true
+					assigned[h] = true
+				}
+			}
+			members := len(region)
+			for h := range region {
+				for _, x := range callees(h) {
+					if !x.Obj.Exported() {
+						region[x] = true
+					}
+				}
+			}
+			nrec++
+			o.At(fn.Site(fn.Decl, fmt.Sprintf("recursive reader (%d function(s) on the cycle)", members)))
+			tested, stored, bounded := false, false, false
+			for h := range region {
+				info := h.Info()
+				ast.Inspect(h.Decl.Body, func(m ast.Node) bool {
+					switch x := m.(type) {
+					case *ast.IfStmt:
+						hasTest := false
+						ast.Inspect(x.Cond, func(k ast.Node) bool {
+							if ix, ok := k.(*ast.IndexExpr); ok && isRefMap(info, ix.X) {
+								hasTest = true
+							}
+							return true
+						})
+						// if seen[ref] { exit }   or   if !seen[ref] { seen[ref] = true; descend } else-less
+						if hasTest && (exits(x.Body) || (x.Else != nil && func() bool { b, isB := x.Else.(*ast.BlockStmt); return isB && exits(b) }())) {
+							tested = true
+						}
+						if mentionsMaxDepth(info, x.Cond) && exits(x.Body) {
+							bounded = true
+						}
+					case *ast.AssignStmt:
+						for _, l := range x.Lhs {
+							if ix, ok := ast.Unparen(l).(*ast.IndexExpr); ok && isRefMap(info, ix.X) {
+								stored = true
+							}
 						}
 					}
 					return true
 				})
-				return true
-			})
-			stores := false
-			ast.Inspect(fn.Decl.Body, func(m ast.Node) bool {
-				if as, ok := m.(*ast.AssignStmt); ok {
-					for _, l := range as.Lhs {
-						if ix, ok := ast.Unparen(l).(*ast.IndexExpr); ok {
-							if mt, ok := fn.Info().TypeOf(ix.X).Underlying().(*types.Map); ok && strings.Contains(core.TypeString(mt.Key()), "Reference") {
-								stores = true
-							}
-						}
-					}
+			}
+			// a helper that extends the set and reports (as a boolean) whether the
+			// reference was new is a test, however it finds out (seen[ref], or the
+			// set's length before and after)
+			reporting := map[*core.Func]bool{}
+			for h := range region {
+				if reach(h)[fn] {
+					continue
 				}
-				return true
-			})
-			if !(visited && stores) {
-				for _, cs := range core.CallsIn(fn.Info(), fn.Decl.Body, false) {
-					if cs.Fn == nil || cs.Fn.Exported() || cs.Fn.Pkg() != fn.Obj.Pkg() {
-						continue
-					}
-					h := c.Prog.FuncOf(cs.Fn)
-					if h == nil || h.Decl.Body == nil {
-						continue
-					}
-					takesSet := false
-					for _, a := range cs.Call.Args {
-						if mt, ok := fn.Info().TypeOf(a).Underlying().(*types.Map); ok && strings.Contains(core.TypeString(mt.Key()), "Reference") {
-							takesSet = true
-						}
-					}
-					hs := c.Prog.Src(h.Decl.Body)
-					if takesSet && strings.Contains(hs, "]=true") {
-						// the helper's result must decide an exit in the caller
-						for _, bv := range fn.Graph().BranchVertices() {
-							if bv.Cond.Expr != nil && len(core.CallsTo(fn.Info(), bv.Cond.Expr, false, cs.Key)) > 0 {
-								visited, stores = true, true
+				res := h.Decl.Type.Results
+				if res == nil || len(res.List) != 1 {
+					continue
+				}
+				if b, ok := h.Info().TypeOf(res.List[0].Type).Underlying().(*types.Basic); !ok || b.Kind() != types.Bool {
+					continue
+				}
+				st := false
+				ast.Inspect(h.Decl.Body, func(m ast.Node) bool {
+					if as, ok := m.(*ast.AssignStmt); ok {
+						for _, l := range as.Lhs {
+							if ix, ok := ast.Unparen(l).(*ast.IndexExpr); ok && isRefMap(h.Info(), ix.X) {
+								st = true
 							}
 						}
 					}
+					return true
+				})
+				if st {
+					reporting[h] = true
+					tested = true
 				}
 			}
-			o.Shape(visited && stores, "%s has no visited-set on kid references (a set keyed by Reference that is tested with an exit and extended)", name)
-			o.Shape(strings.Contains(src, "maxDepth()") || strings.Contains(src, "maxDepth"), "%s has no depth bound", name)
+			// a test made in a helper counts only if the helper's result decides an exit in a member of the cycle
+			if tested {
+				direct := false
+				for h := range region {
+					if !reach(h)[fn] {
+						continue
+					}
+					info := h.Info()
+					ast.Inspect(h.Decl.Body, func(m ast.Node) bool {
+						is, ok := m.(*ast.IfStmt)
+						if !ok {
+							return true
+						}
+						ast.Inspect(is.Cond, func(k ast.Node) bool {
+							switch y := k.(type) {
+							case *ast.IndexExpr:
+								if isRefMap(info, y.X) {
+									direct = true
+								}
+							case *ast.CallExpr:
+								if f := core.Callee(info, y); f != nil {
+									if hh := c.Prog.FuncOf(f); hh != nil && region[hh] && !reach(hh)[fn] {
+										direct = true
+									}
+								}
+							}
+							return true
+						})
+						return true
+					})
+				}
+				tested = direct
+			}
+			o.Shape(tested && stored, "the recursive reader %s has no visited-set on kid references (a set keyed by Reference that is tested with an exit and extended)", fn.Key)
+			o.Shape(bounded, "the recursive reader %s has no depth bound (a test against maxDepth with an exit)", fn.Key)
 		}
+		o.Shape(nrec >= 1, "no recursive reader was found in streaming.go and memory.go: how reference cycles in a tree are survived is not decided by this rule")
 	})
 	c.Check("C17-R5", pk+".finish/empty", "an empty map yields no tree: finish returns the zero reference without writing anything", func(o *core.Ob) {
 		fn := c.Prog.Func(pk, "(*treeWriter).finish")
@@ -703,6 +799,19 @@ func runC17(c *core.Ctx) {
 		}
 		o.Require(ok, "no write-free zero-reference return for the empty tree")
 	})
+}
+
+// mentionsMaxDepth reports whether a condition compares against the depth
+// bound (the maxDepth constant, variable or function).
+func mentionsMaxDepth(info *types.Info, e ast.Expr) bool {
+	found := false
+	ast.Inspect(e, func(n ast.Node) bool {
+		if id, ok := n.(*ast.Ident); ok && strings.EqualFold(id.Name, "maxDepth") {
+			found = true
+		}
+		return !found
+	})
+	return found
 }
 
 // conjunctSet renders the conjuncts of a condition sorted, so that the
